@@ -38,7 +38,7 @@ theorem step_shape {c : SnapCfg} (hc : c.Good) {s s' : St} {a : Act} (h : Inv c 
     ∃ tid t', (∀ x, s'.thr x = if x = tid then some t' else s.thr x) ∧
       (∀ t, s.thr tid = some t → Evo s t t') ∧
       (s.thr tid = none → t'.began = false ∧ t'.rlog = []) ∧ StoreRel s s' tid := by
-  obtain ⟨hcf, hlk, hda, hrw⟩ := hc
+  obtain ⟨hcf, hlk, hda, hrw, _⟩ := hc
   -- a step that rewrites the record of `tid` to `t'` without touching what `Evo` reads
   have plain : ∀ (tid : Nat) (t t' : Txn), s.thr tid = some t →
       (∀ x, s'.thr x = if x = tid then some t' else s.thr x) → s'.store = s.store →
@@ -237,7 +237,7 @@ theorem readAt_cons_newer (e : Entry) (st : List Entry) (k : Key) (r : Nat) (h :
 /-- a commit timestamp whose `Done` has not decremented is above the watermark -/
 theorem pending_above {c : SnapCfg} (hcf : c.wm.countsFirst = true) {s : St} (h : Inv c s) (ts : Nat)
     (hp : Pending s ts) (hcnt : 1 ≤ s.tm.nCounted ts) : s.tm.doneUntil < ts := by
-  exact WM.above_mark c.wm hcf s.tm h.tmR ts hcnt hp.2
+  exact WM.above_mark s.tm h.tmR ts hcnt hp.2
 
 /-- **the snapshot of a begun transaction does not move**: no step of any thread changes what a
 read at its read timestamp returns, for any key -/
@@ -297,8 +297,8 @@ theorem RL.step {c : SnapCfg} (hc : c.Good) {s s' : St} {a : Act} (h : Inv c s) 
 
 theorem RL.reachable {c : SnapCfg} (hc : c.Good) (s : St) (hr : Reachable (sys c) s) : Inv c s ∧ RL s := by
   refine Reachable.invariant (S := sys c) (fun s => Inv c s ∧ RL s) ?_ ?_ s hr
-  · intro s0 h0; cases h0
-    exact ⟨Inv.init c, fun _ _ hx => by simp [initSt] at hx⟩
+  · rintro s0 ⟨n, store, rfl, _⟩
+    exact ⟨Inv.init c hc.2.2.2.2 n store, fun _ _ hx => by simp [seededSt] at hx⟩
   · intro s0 a s1 ih hst
     exact ⟨ih.1.step hc hst, ih.2.step hc ih.1 hst⟩
 
